@@ -26,6 +26,10 @@ func formInsn(f int) mars.Insn {
 
 // StepCase is one single-warrior lock-step case: a whole core, a PC and k cycles.
 type StepCase struct {
+	Mode       int // simulator mode (0..2): must not influence execution
+	Len        int // configured maximum warrior length: the simulator must ignore it
+	Bystanders int // 1: a never-started warrior stands in front of the one under test and a living helper behind it
+	HelperAt   int // cell of the helper (JMP $0)
 	M, R, W, P int
 	PC         int
 	K          int
@@ -131,6 +135,7 @@ func genStepCase(idx int64, r *Rng, thorough, limited bool) *StepCase {
 	if r.Chance(1, 3) {
 		aimIndirect(sc, r)
 	}
+	randModeLen(sc, r)
 	return sc
 }
 
@@ -162,18 +167,35 @@ func mClass(m int) string {
 
 // newStepSim builds the real simulator for a step case through the public API.
 func newStepSim(sc *StepCase, core []mars.Insn, pc int) (g.Simulator, g.Warrior, error) {
-	cfg := g.SimulatorConfig{Mode: g.ICWS94, CoreSize: g.Address(sc.M), Processes: g.Address(sc.P), Cycles: 1000,
-		ReadLimit: g.Address(sc.R), WriteLimit: g.Address(sc.W), Length: 0, Distance: 0}
+	cfg := g.SimulatorConfig{Mode: []g.SimulatorMode{g.ICWS94, g.ICWS88, g.NOP94}[sc.Mode%3], CoreSize: g.Address(sc.M), Processes: g.Address(sc.P), Cycles: 1000,
+		ReadLimit: g.Address(sc.R), WriteLimit: g.Address(sc.W), Length: g.Address(sc.Len), Distance: 0}
 	s, err := g.NewSimulator(cfg)
 	if err != nil {
 		return nil, nil, err
+	}
+	wi := 0
+	if sc.Bystanders > 0 {
+		// a warrior that is added but never started stands in front of the one under test ...
+		if _, err := s.AddWarrior(&g.WarriorData{Name: "bystander", Code: []g.Instruction{{Op: g.DAT}}}); err != nil {
+			return nil, nil, err
+		}
+		wi = 1
 	}
 	w, err := s.AddWarrior(&g.WarriorData{Code: toGCode(core), Start: pc})
 	if err != nil {
 		return nil, nil, err
 	}
-	if err := s.SpawnWarrior(0, 0); err != nil {
+	if err := s.SpawnWarrior(wi, 0); err != nil {
 		return nil, nil, err
+	}
+	if sc.Bystanders > 0 {
+		// ... and a living helper (JMP $0, it sits still) behind it keeps the battle undecided
+		if _, err := s.AddWarrior(&g.WarriorData{Name: "helper", Code: []g.Instruction{toG(helperInsn)}}); err != nil {
+			return nil, nil, err
+		}
+		if err := s.SpawnWarrior(2, g.Address(sc.HelperAt)); err != nil {
+			return nil, nil, err
+		}
 	}
 	return s, w, nil
 }
@@ -259,6 +281,7 @@ func genGridCase(gidx int64, r *Rng) *StepCase {
 	f := formInsn(form)
 	f.A, f.B = vals[ai], vals[bi]
 	sc.Core[sc.PC] = f
+	randModeLen(sc, r)
 	return sc
 }
 
@@ -338,6 +361,7 @@ func genLargeCase(r *Rng) *StepCase {
 	if r.Chance(1, 2) {
 		aimIndirect(sc, r)
 	}
+	randModeLen(sc, r)
 	return sc
 }
 
@@ -390,4 +414,40 @@ func aimIndirect(sc *StepCase, r *Rng) bool {
 		sc.Core[cell].B = v
 	}
 	return true
+}
+
+// randModeLen draws the configuration fields that must not influence execution:
+// the rule-set mode and the maximum warrior length.
+func randModeLen(sc *StepCase, r *Rng) {
+	if r.Chance(1, 2) {
+		sc.Mode = r.Intn(3)
+	}
+	if r.Chance(1, 3) {
+		sc.Len = []int{1, sc.M / 4, sc.M / 2, sc.M}[r.Intn(4)]
+	}
+	if r.Chance(1, 6) && sc.M <= 4096 {
+		sc.Bystanders = 1
+		sc.HelperAt = (sc.PC + 1 + r.Intn(sc.M-1)) % sc.M
+		sc.Core[sc.HelperAt] = helperInsn
+	}
+}
+
+// helperInsn is the code of the helper warrior: it jumps to itself for ever
+var helperInsn = mars.Insn{Op: mars.JMP, Mod: mars.MB, AM: mars.DIR, BM: mars.DIR, A: 0, B: 0}
+
+// refFor builds the reference battle that mirrors newStepSim.
+func (sc *StepCase) refFor(core []mars.Insn, pc int) (*mars.Battle, int) {
+	ref := mars.NewBattle(sc.M, sc.P, 1000, sc.R, sc.W)
+	wi := 0
+	if sc.Bystanders > 0 {
+		ref.Add(mars.WarriorCode{Code: []mars.Insn{mars.Empty}})
+		wi = 1
+	}
+	ref.Add(mars.WarriorCode{Code: core, Start: pc})
+	ref.Spawn(wi, 0)
+	if sc.Bystanders > 0 {
+		ref.Add(mars.WarriorCode{Code: []mars.Insn{helperInsn}})
+		ref.Spawn(2, sc.HelperAt)
+	}
+	return ref, wi
 }
